@@ -93,14 +93,16 @@ def translate():
         r"\.unwrap_or_else\(\|\| target_pc\.into\(\)\) \+ (\d+)\) \.as_i64\(\); "
         r"let mut offset = target_pc(?: - cur_pc|(\.wrapping_sub\(cur_pc\))); "
         r"if \((-?\d+)(\.\.=|\.\.)(-?\d+)\)\.contains\(&offset\) \{ if offset < 0 \{ offset \+= (\d+); \} offset as i64 \} "
-        r"else if target_pc == (\d+) \{ 0 \} else \{ (?:self\.emit\(full_span, &\[((?:\d+(?:, )?)*)\]\)\?; )?return Err\(",
+        r"(?:else if target_pc == (\d+) \{ 0 \} )?else \{ (?:self\.emit\(full_span, &\[((?:\d+(?:, )?)*)\]\)\?; )?return Err\(",
         bra,
     )
     if not m:
         raise ShapeError("instruction arm: branch computation has unrecognised shape: %s" % bra[:300])
     # C06 (program counter range fix): `target_pc.wrapping_sub(cur_pc)` and a wrapping `ProgramCounter + usize` no longer panic
     sub_wraps = bool(m.group(2))
-    plus, rlo, rop, rhi, fix, esc = int(m.group(1)), int(m.group(3)), m.group(4), int(m.group(5)), int(m.group(6)), int(m.group(7))
+    plus, rlo, rop, rhi, fix = int(m.group(1)), int(m.group(3)), m.group(4), int(m.group(5)), int(m.group(6))
+    # the `target_pc == 0` escape (a branch to address 0 was never rejected); absent since the repair
+    esc = int(m.group(7)) if m.group(7) is not None else None
     # bytes still emitted for a branch that is too far (none on older trees)
     too_far_bytes = [int(x) for x in m.group(8).split(", ")] if m.group(8) else []
     pcsrc = re.sub(r"\s+", " ", strip_comments(read("mos-core/src/codegen/program_counter.rs")))
@@ -148,7 +150,7 @@ def translate():
     out.append("Definition branch_lo : Z := (%d)%%Z." % rlo)
     out.append("Definition branch_hi : Z := (%d)%%Z." % rhi_incl)
     out.append("Definition branch_fix : Z := %d%%Z." % fix)
-    out.append("Definition branch_escape_target : Z := %d%%Z." % esc)
+    out.append("Definition branch_escape : option Z := %s." % ("None" if esc is None else "Some (%d)%%Z" % esc))
     out.append("Definition branch_add_wraps : bool := %s." % ("true" if add_wraps else "false"))
     out.append("Definition branch_sub_wraps : bool := %s." % ("true" if sub_wraps else "false"))
     out.append("Definition invalid_instruction_byte : N := %d." % invalid_byte)
